@@ -25,6 +25,7 @@ from ..util import (
     is_categorical,
     is_pyarrow_backed,
     mean_from_sum_count,
+    pandas_type_from_array,
     parallel_map,
     series_is_numeric,
     series_is_timestamp,
@@ -44,6 +45,19 @@ ArrayCollection = (
 
 
 THRESHOLD_FOR_CHUNKED_FACTORIZE = 1_000_000
+
+
+def _supports_chunked_factorization(group_key: ArrayType1D) -> bool:
+    """
+    Whether a (large) group key can take the chunk-wise factorization route.
+    That route scans and concatenates the raw values, so it needs numeric, temporal
+    or fixed-width string data: object / string-dtype arrays cannot be passed to the
+    compiled monotonic scan, and boolean keys always report both labels.
+    """
+    dtype = pandas_type_from_array(group_key)
+    if isinstance(dtype, np.dtype):
+        return dtype.kind in "iufmMUS"
+    return dtype.kind in "iufmM"
 
 
 def array_to_series(arr: ArrayType1D):
@@ -231,6 +245,7 @@ class GroupBy:
                 factorize_in_chunks = (
                     factorize_large_inputs_in_chunks
                     and len(group_key) >= THRESHOLD_FOR_CHUNKED_FACTORIZE
+                    and _supports_chunked_factorization(group_key)
                 ) or chunked
 
             if factorize_in_chunks:
